@@ -3,6 +3,12 @@
 // packet ledger: every launched packet terminates exactly once, requested =
 // terminated, nothing is left in buffers / tasks / queues, the loop ends.
 #include "TaskBasedIonizationSimulation.hpp"
+#include "DensitySubGrid.hpp"
+#include "DensitySubGridCreator.hpp"
+#include "MemorySpace.hpp"
+#include "PhotonBuffer.hpp"
+#include "TaskQueue.hpp"
+#include "ThreadSafeVector.hpp"
 #include "e1.hpp"
 #include "verif_common.hpp"
 
@@ -80,6 +86,66 @@ using c01::L;
 using c01::g_expect_continuous;
 using c01::viol;
 static void monitor(const e1::Event &e) { c01::ledger_monitor(e); }
+
+// ------------------------------------------------------------------ state hash
+// Plain (non-atomic) shared state of the photon loop for the state-pruned deep
+// searches: queue contents, live task slots, live photon buffers with their
+// packets, per-subgrid outgoing buffer indices and ownership.
+static TaskBasedIonizationSimulation *g_sim = nullptr;
+static uint64_t simulation_state_hash() {
+  uint64_t h = e1::tracked_atomics_hash();
+  auto mix = [&h](uint64_t v) { h = (h ^ v) * 1099511628211ull; };
+  auto mixd = [&](double d) {
+    uint64_t b;
+    memcpy(&b, &d, 8);
+    mix(b);
+  };
+  if (!g_sim)
+    return h;
+  auto hq = [&](TaskQueue *q) {
+    mix(q->_current_queue_size);
+    for (size_t i = 0; i < q->_current_queue_size; ++i)
+      mix(q->_queue[i]);
+  };
+  hq(g_sim->_shared_queue);
+  for (TaskQueue *q : g_sim->_queues)
+    hq(q);
+  ThreadSafeVector< Task > &tasks = *g_sim->_tasks;
+  for (size_t i = 0; i < tasks._size; ++i)
+    if (tasks._locks[i]._value._v.load()) {
+      mix(i);
+      mix((uint64_t)tasks._vector[i]._type);
+      mix(tasks._vector[i]._subgrid);
+      mix(tasks._vector[i]._buffer);
+    }
+  ThreadSafeVector< PhotonBuffer > &bufs = g_sim->_buffers->_memory_space;
+  for (size_t i = 0; i < bufs._size; ++i)
+    if (bufs._locks[i]._value._v.load()) {
+      PhotonBuffer &b = bufs._vector[i];
+      mix(i);
+      mix(b._actual_size);
+      mix((uint64_t)b._subgrid_index);
+      mix((uint64_t)b._direction);
+      for (uint_fast32_t k = 0; k < b._actual_size; ++k) {
+        const PhotonPacket &ph = b._photons[k];
+        for (int d = 0; d < 3; ++d) {
+          mixd(ph._position[d]);
+          mixd(ph._direction[d]);
+        }
+        mixd(ph._energy);
+        mixd(ph._target_optical_depth);
+      }
+    }
+  for (size_t i = 0; i < g_sim->_grid_creator->number_of_actual_subgrids(); ++i) {
+    DensitySubGrid &sg = *g_sim->_grid_creator->get_subgrid(i);
+    for (int d = 0; d < TRAVELDIRECTION_NUMBER; ++d)
+      mix(sg._active_buffers[d]);
+    mix((uint64_t)sg._owning_thread);
+    mix((uint64_t)sg._largest_buffer_index);
+    mix((uint64_t)sg._largest_buffer_size);
+  }
+  return h;
+}
 
 // ------------------------------------------------------------------ driver
 
@@ -251,6 +317,7 @@ int main(int argc, char **argv) {
     if (!freopen("/dev/null", "w", stdout)) {
     }
     TaskBasedIonizationSimulation *sim = new TaskBasedIonizationSimulation(J.threads, "params.yml");
+    g_sim = sim;
     sim->initialize(nullptr);
     fflush(stdout);
     dup2(saved_out, 1);
@@ -265,7 +332,7 @@ int main(int argc, char **argv) {
       if (J.prune) {
         e1::sched.track_atomics = true;
         e1::sched.hash_states = true;
-        e1::sched.shared_hash = []() { return e1::tracked_atomics_hash(); };
+        e1::sched.shared_hash = simulation_state_hash;
       }
       g_expect_continuous = J.cfg.continuous;
       if (!freopen("/dev/null", "w", stdout)) {
